@@ -9,6 +9,8 @@ Line protocol of the C16 correspondence run (same request file as harness/src/bi
   `(ins <mem|disk> (decls (<TY> <null|notnull>)*) (rows (<val>*)*))`
                                        -> `ok (<val>*)* ;; ok <spec rows> ;; <tag>*`  rows of `SELECT *`, sorted
 
+  `(ddl <TY> (opts <null|notnull|unique|pk>*))` -> `ok nullable=<b> primary=<b>` | `err`: what CREATE TABLE catalogues
+  decl: `(<TY> <null|notnull|pk>)` or `(<TY> (opts o*))` (column options as written, in order)
   `(inscols <eng> (decls …) (cols i…) (rows …))`  INSERT INTO t(c_i…) VALUES …, same answer format
   `(inssel <eng> (src (<TY> <n>)*) (decls …) (rows …))`  rows into s, then INSERT INTO t SELECT * FROM s
 
@@ -109,10 +111,25 @@ def showIVal : IVal → String
   | .str s => "s:" ++ hexOfBytes s.toUTF8.toList
   | .dec d => "d:" ++ toString d
 
+def parseOpt (s : String) : Option ColOpt :=
+  if s == "null" then some .null else if s == "notnull" then some .notNull
+  else if s == "unique" then some .unique else if s == "pk" then some .primaryKey else none
+
+def parseOpts : List Sexp → Option (List ColOpt)
+  | [] => some []
+  | .atom o :: rest => do pure ((← parseOpt o) :: (← parseOpts rest))
+  | _ => none
+
 def parseDecls : List Sexp → Option (List ColDecl)
   | [] => some []
   | .list [.atom t, .atom n] :: rest => do
     pure (⟨← parseTyName t, n == "null"⟩ :: (← parseDecls rest))
+  -- `(TY (opts o*))`: the column options as written, in order; nullability = what
+  -- `bind_create_table` catalogues (model `catalogOf`)
+  | .list [.atom t, .list (.atom "opts" :: os)] :: rest => do
+    let opts ← parseOpts os
+    let nullable := match catalogOf opts with | some (n, _) => n | none => true
+    pure (⟨← parseTyName t, nullable⟩ :: (← parseDecls rest))
   | _ => none
 
 def parseVals : List Sexp → Option (List IVal)
@@ -138,6 +155,12 @@ def answer (line : String) : String :=
     match parseT e with
     | some t => match typeOf t with
       | some ty => "ok " ++ ty.name
+      | none => "err"
+    | none => "bad-request"
+  | some (.list [.atom "ddl", .atom _ty, .list (.atom "opts" :: os)]) =>
+    match parseOpts os with
+    | some opts => match catalogOf opts with
+      | some (n, pk) => "ok nullable=" ++ toString n ++ " primary=" ++ toString pk
       | none => "err"
     | none => "bad-request"
   | some (.list [.atom "ptype", p]) =>
